@@ -62,6 +62,11 @@ def run(c):
     E = S + "enter_tx"
     c.r2_edge("enter-blocked-while-resizing", E, [(r"^Atomic::load\(.*\.resizing, Ordering::Acquire\{\}\)$", "false"), (r"^LocalKey::with\(", "true")],
               "re:core::sync::atomic::.*::fetch_add$|atomic::Atomic.*::fetch_add$", desc="enter_tx admits a new transaction only if !resizing or the thread already holds one (nested)")
+    # the nested-transaction exemption and the per-thread counter are per environment (keyed by env_path)
+    c.r2_arg("nested-exemption-per-env", E + "@re:thread::local::LocalKey.*::with$#1", "re:collections::hash::map::HashMap.*::get$", 1, must=["re:env_path$"],
+             desc="enter_tx: the 'this thread already holds a transaction' exemption is looked up for this store's environment only")
+    c.r2_arg("thread-count-per-env", E + "@re:thread::local::LocalKey.*::with$#2", "re:collections::hash::map::HashMap.*::entry$", 1, must=["re:env_path$"],
+             desc="enter_tx: the per-thread open-transaction count is kept per environment")
     c.r6("lmdb-results", ["grin_store"], {
         "grin_store::lmdb::Store::new|Store::clear|1": "clearing an unused legacy database during migration",
         "grin_store::lmdb::Store::migrate_to_default_env|Sender::send|1": "progress notification channel",
